@@ -294,7 +294,7 @@ Proof.
   destruct s as [|c r] eqn:Es; [congruence|]. rewrite <- Es in *.
   assert (Hns : forall x, In x s -> is_space x = false).
   { intros x Hx. apply (digit_not_space 16); [lia|]. apply (forallb_In _ _ Hall x Hx). }
-  rewrite (strip_by_id is_space s c r Es).
+  unfold strip. rewrite (strip_by_id is_space s c r Es).
   2:{ apply Hns. rewrite Es. left. reflexivity. }
   2:{ apply Hns. apply (last_In s c r 0 Es). }
   set (cond := (16 <=? N.of_nat (List.length s)) && _).
@@ -318,12 +318,14 @@ Proof.
     pose proof (dvalue_ge_acc 16 t' (268435456 * 16 + match digit_val x with Some d => d | None => 0 end)).
     lia.
   - (* eight zeros are dropped without changing the value *)
-    rewrite Et. change (skipn 8 (str "00000000"%string ++ t)) with t.
-    rewrite Et in Hlen, Hall. rewrite app_length in Hlen.
-    change (List.length (str "00000000"%string)) with 8%nat in Hlen.
-    rewrite forallb_app in Hall. apply andb_true_iff in Hall. destruct Hall as [_ Hall].
-    apply Hgo; [destruct t; [cbn in Hlen; lia|discriminate]|assumption|].
-    rewrite Et. unfold hex_value. apply (eq_sym (dvalue_zeros 8 t)).
+    assert (Hk : skipn 8 s = t) by (rewrite Et; reflexivity). rewrite Hk.
+    assert (Hall' : forallb is_hex t = true).
+    { rewrite Et, forallb_app in Hall. apply andb_true_iff in Hall. apply Hall. }
+    assert (Hne' : t <> []).
+    { rewrite Et, app_length in Hlen. change (List.length (str "00000000"%string)) with 8%nat in Hlen.
+      destruct t; [cbn in Hlen; lia|discriminate]. }
+    apply Hgo; [assumption|assumption|].
+    rewrite Et. unfold hex_value. symmetry. apply (dvalue_zeros 8 t).
 Qed.
 
 Lemma strip_mid_hex : forall pre s post, s <> [] -> forallb is_hex s = true ->
@@ -382,6 +384,7 @@ Theorem serial_show : forall n k, n <= 4294967295 ->
   serial (repeat 48 k ++ map upper (show_base 16 n)) = Ok n.
 Proof.
   intros n k Hn. destruct (show_base_spec 16 n) as [A [B [C _]]]; [lia|].
+  change (is_digit_b 16) with is_hex in B.
   destruct (upper_hex _ B) as [BU CU].
   assert (Hz : forallb is_hex (repeat 48 k) = true).
   { induction k; [reflexivity|]. cbn [repeat forallb]. rewrite IHk. reflexivity. }
@@ -440,7 +443,7 @@ Proof.
   intros t Hlen Hall. pose proof (dvalue_bound t 0 Hall) as Hb. rewrite Hlen in Hb.
   change ((0 + 1) * 16 ^ N.of_nat 8) with 4294967296 in Hb. fold (hex_value t) in Hb.
   destruct (serial_prefix t) as [A B]; [lia|assumption|lia|].
-  repeat split; try assumption. change (2 ^ 32) with 4294967296. assumption.
+  split; [exact A|split; [exact B|exact Hb]].
 Qed.
 
 (* whatever is accepted is a 32-bit number; too large a number is refused *)
